@@ -17,6 +17,8 @@ TIERS = {
     "C07": T(1200, 15000),
     "C08": T(1200, 15000),
     "C09": T(900, 15000),
+    "C10": T(500, 6000, flavour="asanfn", flavours=["tsan"], extra="tsan",
+             tsan={"quick": {"cases": 40, "workers": 8, "size": 70}, "thorough": {"cases": 500, "workers": 16, "size": 100}}),
     "C11": T(1500, 12000, global_lock_order=True),
     "C12": T(2500, 40000),
     "C13": T(1200, 12000),
@@ -72,6 +74,10 @@ ASSUMPTIONS = {
     "C17": ["every result is read completely (all fields, all strings and arrays) after the later state changes and - in half of the cases - after bidib_stop, then freed exactly once",
             "Memcheck part: uninstrumented -O0 build (flavour plain) of the same property under valgrind; VALGRIND_CHECK_MEM_IS_DEFINED per field, never on padding",
             "snapshot and single getters are compared at a quiescent moment (receiver drained)"],
+    "C10": ["scheduled flavour: interleavings at lock / sleep / thread-create-join granularity only; free-running flavour: whatever 16 cores and generated delays produce",
+            "the lock-contract table is generated from src/state/*_intern.h and src/highlevel/bidib_highlevel_intern.h of the tree under test; it is enforced while application threads run (between start and stop)",
+            "watch cases: tracked state changes only through the main thread's uplink messages, so that message boundaries are the only instants at which an entity may change",
+            "ThreadSanitizer reports without a libbidib frame (harness, rapidcheck, glib) are ignored"],
     "C11": ["library lock operations are observed through the objcopy-redirected pthread_mutex_* / pthread_rwlock_* imports; file-static mutexes without symbol appear as unnamed_static_lock_<n>",
             "a 'public call returned' check runs on the calling thread directly after the call; receiver / auto-flush / heartbeat threads are checked at quiescent points and after stop",
             "blocking forever = wait-for cycle among the modelled locks, or a call exceeding the virtual-time budget (900 virtual seconds)",
